@@ -20,11 +20,10 @@ type statsManager struct {
 
 func (s *statsManager) getClientStats(clientID string) (stats *ClientStats) {
 	if stats = s.clientStats[clientID]; stats == nil {
-		subStats, _ := s.subStatsReader.GetClientStats(clientID)
-
-		stats = &ClientStats{
-			SubscriptionStats: subStats,
-		}
+		// The subscription statistics are read from the store when a snapshot is taken (GetClientStats).
+		// They must not be read here: the callers hold clientMu, and the delivery path updates these
+		// statistics (taking clientMu) while it holds the store's lock.
+		stats = &ClientStats{}
 		s.clientStats[clientID] = stats
 	}
 	return stats
@@ -482,18 +481,19 @@ func (s *statsManager) GetGlobalStats() GlobalStats {
 // GetClientStats returns the client statistic information for given client id.
 func (s *statsManager) GetClientStats(clientID string) (ClientStats, bool) {
 	s.clientMu.Lock()
-	defer s.clientMu.Unlock()
-	if stats := s.clientStats[clientID]; stats == nil {
+	stats := s.clientStats[clientID]
+	if stats == nil {
+		s.clientMu.Unlock()
 		return ClientStats{}, false
-	} else {
-		s, _ := s.subStatsReader.GetClientStats(clientID)
-		return ClientStats{
-			PacketStats:       *stats.PacketStats.copy(),
-			MessageStats:      *stats.MessageStats.copy(),
-			SubscriptionStats: s,
-		}, true
 	}
-
+	rs := ClientStats{
+		PacketStats:  *stats.PacketStats.copy(),
+		MessageStats: *stats.MessageStats.copy(),
+	}
+	s.clientMu.Unlock()
+	// the store's lock is never taken under clientMu (see getClientStats)
+	rs.SubscriptionStats, _ = s.subStatsReader.GetClientStats(clientID)
+	return rs, true
 }
 
 func newStatsManager(subStatsReader subscription.StatsReader) *statsManager {
